@@ -5,10 +5,16 @@ prefix-closed, plus every truncation of longer encodings) unpack may succeed onl
 interpreter - which demands exactly the declared bytes inside the input for every field - succeeds;
 unpack(raw, silent=True) is None exactly when unpack(raw) raises.
 """
+import sys
 from mc import common, ea, alphabet, ir, refsem
 
 MODULE = 'mc.props.c04'
 EXCLUDE = ()
+
+
+def optimized_specs(tier):
+    """every component alone, once more under python -O (assert statements stripped)"""
+    return [{'names': [c], 'wrapper': 'a'} for c in alphabet.COMPONENTS if c not in globals().get('EXCLUDED', ())]
 
 
 def decl_specs(tier):
@@ -97,6 +103,10 @@ def check_decl(dc, st, tier, only=None):
 
 def run(tier):
     st = ea.run(MODULE, tier)
+    from mc import ea_o
+    so = ea_o.run(MODULE, tier)         # every component alone once more under python -O (assert statements stripped)
+    st.merge(so)
+    st.notes.extend(so.notes)
     LADDER_NOTE = '; plus the shared size and structure ladders (mc/alphabet.py boundary_specs / structure_specs): lengths and counts 5, 8, 9, 16, 17, 32, 33, 64, 65, 128, 129, 255, 256, 257, 1024, 1025, 4096, 4097, 8192, 8193 behind one-, two- and three-byte length fields with their exact encodings (and the same cut short), constant counts and sizes 15..257 first in a packet, far positions (holes of 255..8192 bytes), chains of 4..8 references, lists of lists of lists, nine-byte integers, bit runs of 40/72/80 bits, declarations of 24 components and runs of 17..40 fixed fields, holders whose options differ from the held class, the nested class alone on the field-by-field loop'
     cov = ea.coverage(st, 'every declaration of the component alphabet (singles x 3 wrappers, pairs%s) plus wide integers (3,5,6,7,9,16 bytes) and '
                           'bit groups of 24..48 bits; inputs: all strings up to the length bound over the declaration alphabet (prefix-closed) plus '
@@ -104,10 +114,15 @@ def run(tier):
                           'states = distinct (declaration, reference outcome, implementation outcome, input length)' %
                       (' over the reduced alphabet' if tier == 'quick' else ' x 3 wrappers, triples over the reduced alphabet'))
     cov['rule'] += LADDER_NOTE
+    cov['rule'] += '; every component alone once more in child interpreters started with -O'
+    cov['programs_under_python_O'] = st.n.get('programs_under_O', 0)
     return {'stats': st, 'coverage': cov,
             'assumptions': ['reference interpreter mc/refsem.py', 'inputs bounded in length and alphabet (see coverage.rule)']}
 
 
 def replay(case):
+    if case.get('optimized') and sys.flags.optimize < 1:
+        from mc import ea_o
+        return ea_o.replay(MODULE, case)
     import sys
     return ea.replay_decl(sys.modules[__name__], case)
